@@ -301,6 +301,37 @@ def rule_i(chk, prog):
     chk.floor("C19.i", n, 2, "reads of the daily water-table series")
 
 
+def rule_j(chk, prog):
+    """C19.j (capillary rise stops 4 m below the compartments - sibling rule): capillary_rise compares the distance between the water table and a
+    depth with its reach limit in three places (bottom compartment, the disabled look-below loop, the upward loop); every such comparison
+    is `z_gw - <depth> < limit` - the table's depth minus the compartment's, so a table far below gives a large positive distance and no
+    rise. With the operands swapped the distance is negative for every table below the profile and the cut-off never fires: a table tens
+    of metres down still feeds the bottom compartment (a far table no longer equals no table)."""
+    fi = prog.find_func("capillary_rise")
+    chk.fn(fi.key)
+    where = f"{fi.module}:{fi.qualname}"
+    sites = []
+    for c in ast.walk(fi.node):
+        if isinstance(c, ast.Compare) and len(c.ops) == 1 and isinstance(c.left, ast.BinOp) and isinstance(c.left.op, ast.Sub) \
+                and isinstance(c.comparators[0], ast.Constant) and isinstance(c.comparators[0].value, (int, float)) and c.comparators[0].value > 0 \
+                and isinstance(c.ops[0], (ast.Lt, ast.LtE, ast.Gt, ast.GtE)):
+            l, r = norm(c.left.left).lower(), norm(c.left.right).lower()
+            if "gw" in l or "gw" in r:
+                sites.append(c)
+    limits = {c.comparators[0].value for c in sites}
+    for c in sites:
+        l, r = norm(c.left.left).lower(), norm(c.left.right).lower()
+        construct = norm(c)
+        if "gw" in l and "gw" not in r and isinstance(c.ops[0], (ast.Lt, ast.LtE)):
+            chk.ok("C19.j", where, construct, "table depth minus compartment depth, below the reach limit")
+        else:
+            chk.violation("C19.j", where, construct, "the distance compared with the reach limit is not `z_gw - <depth>`: for a table below the profile it is negative and the limit "
+                          "never applies - capillary rise from a water table far below the profile", loc=fi.loc(c))
+    if len(limits) > 1:
+        chk.violation("C19.j", where, "reach limits " + ", ".join(str(x) for x in sorted(limits)), "the sibling guards use different reach limits", loc=fi.loc())
+    chk.floor("C19.j", len(sites), 3, "comparisons of the distance to the water table with the reach limit")
+
+
 def rule_g(chk, prog):
     """C19.g (each compartment's adjusted field capacity is built from its own properties): every store into the adjusted-field-capacity array
     `A[k] = v` (both implementations) has a scalar index k, and every per-compartment hydraulic property read in v - `prof.th_fc[j]`, or a
@@ -452,6 +483,7 @@ def run(chk, prog, tier):
     wt_in_soil_agreement(chk, prog, "C19.f")
     rule_g(chk, prog)
     rule_i(chk, prog)
+    rule_j(chk, prog)
     from .c18 import rule_h as iwc_adjusted_fc
     iwc_adjusted_fc(chk, prog, rule="C19.h")
     chk.assume("A-1")
